@@ -360,6 +360,10 @@ def _history_hook(check):
 
 def _c11_check(store, step, op, memo):
     v = []
+    if op[0] == "OScaleDown":          # a non-integer argument (factor 1/k): outside the property's premise from here on
+        memo.append("non-integer-argument")
+    if memo:
+        return v
     for i, s in enumerate(store):
         for fresh, lst in ((not s._abs_stale, getattr(s, "_abs", None)), (not s._rel_stale, getattr(s, "_rel", None))):
             if fresh and lst is not None:
@@ -436,6 +440,7 @@ def _c04_check(store, step, op, memo):
 
 
 J.setdefault("C04", []).append(("history", _history_hook(_c04_check)))
+J.setdefault("C04", []).append(("scale_down", _history_hook(_c04_check)))
 
 
 def _c14_check(store, step, op, memo):
@@ -1021,10 +1026,13 @@ def bin_value(nb, v):
     return None
 
 
-def valid_piece(cfg, tracks):
+def valid_piece(cfg, tracks, hires=False):
     nt, lo, hi, steps, values, nb = cfg[:6]
+    W = 96
     if len(cfg) > 11 and cfg[11] != 24:
-        return None        # a tokeniser resolution different from the library's PPQN: the bar grid of the piece is not the tokeniser's
+        if cfg[11] != 480 or not hires:
+            return None    # a tokeniser resolution different from the one the piece is written in: the bar grid of the piece is not the tokeniser's
+        W = 1920           # gen_piece writes pieces for ppqn=480 configurations on the 480 grid
     steps, values = ops.cfg_steps(cfg), ops.cfg_values(cfg)
     u = steps[0]
     if any(s % u for s in steps) or len(tracks) != nt:
@@ -1051,7 +1059,7 @@ def valid_piece(cfg, tracks):
     for m in [m for a, _ in info for m in a]:
         if m[0] == "TIME_SIGNATURE":
             tlo, thi = (cfg[12] if len(cfg) > 12 else (2, 16))
-            if m[2] in sigs or (8 * m[8]) % m[9] or not (tlo <= 8 * m[8] // m[9] <= thi) or (96 * m[8] // m[9]) % u or m[9] not in (1, 2, 4, 8, 16):
+            if m[2] in sigs or (8 * m[8]) % m[9] or not (tlo <= 8 * m[8] // m[9] <= thi) or (W * m[8] // m[9]) % u or m[9] not in (1, 2, 4, 8, 16):
                 return None
             sigs[m[2]] = (m[8], m[9])
     pend = sorted(sigs)
@@ -1062,7 +1070,7 @@ def valid_piece(cfg, tracks):
             cur = sigs[pend.pop(0)]
         elif pend and pend[0] < t:
             return None
-        ln = 96 * cur[0] // cur[1]
+        ln = W * cur[0] // cur[1]
         if ln % u:
             return None
         bounds.append((t, t + ln, cur))
@@ -1076,7 +1084,7 @@ def valid_piece(cfg, tracks):
 def j_c01(inp):
     cfg, tracks = inp[0], inp[1]
     hows = inp[2] if len(inp) > 2 else ["rel"] * len(tracks)
-    vp = valid_piece(cfg, tracks)
+    vp = valid_piece(cfg, tracks, hires=True)
     if vp is None or len(hows) != len(tracks):
         return None
     t = ops.mk_tok(cfg)
@@ -1189,8 +1197,20 @@ def j_c03(inp):
         whole = t.tokenise([Bar.to_sequence(tb) for tb in ops._bars_of(tracks)], insert_bar_token=bar_tok)
         sd, chunks = {}, []
         bars2 = ops._bars_of(tracks)
+        shared = len(inp) > 4 and inp[4]
+        if shared:          # same history as the harness: bars inspected, whole piece re-joined from these bars tokenised first
+            for tb in bars2:
+                for b_ in tb:
+                    try:
+                        b_.sequence.get_sequence_duration()
+                    except IndexError:
+                        pass
+            whole2 = t.tokenise([Bar.to_sequence(tb) for tb in bars2], insert_bar_token=bar_tok)
+            if whole2 != whole:
+                return ["the whole piece re-joined from inspected bars tokenises differently from the same piece re-joined from fresh bars"]
         for a, b in groups:
-            chunks += t.tokenise([Bar.to_sequence(tb[a:b]) for tb in bars2], state_dict=sd, insert_bar_token=bar_tok)
+            chunks += t.tokenise([(tb[a].sequence if shared and b - a == 1 else Bar.to_sequence(tb[a:b])) for tb in bars2],
+                                 state_dict=sd, insert_bar_token=bar_tok)
         o1, o2 = t.detokenise(whole), t.detokenise(chunks)
     except Exception as e:
         return None if isinstance(e, Exception) and "Invalid" in str(e) else [f"{type(e).__name__}: {e}"]
@@ -1345,7 +1365,7 @@ def run(prop, seed, tier, extra_inputs=(), boost=1, kf=None):
         n = ORACLE_N[tier] * boost
         if opname in ("vocab",):
             n = max(20, n // 10)
-        if opname in ("tok_stream", "history", "tok_stateful"):
+        if opname in ("tok_stream", "history", "tok_stateful", "scale_down"):
             n = max(50, n // 2)
         inputs = [i for o, i in extra_inputs if o == opname] + [op.gen(rng) for _ in range(n)]
         new_here, known_here = 0, 0
